@@ -31,7 +31,7 @@ ASSUMPTIONS = [
 ]
 BUDGET = {"quick": 70, "thorough": 700}
 FLOORS = {"crash_points": {"quick": 3000, "thorough": 100000}, "directory_states_checked": {"quick": 3000, "thorough": 100000},
-          "depth2_states": {"quick": 1500, "thorough": 50000}, "real_kills": {"quick": 20, "thorough": 150}, "driver_saves": 6}
+          "depth2_states": {"quick": 1500, "thorough": 50000}, "real_kills": {"quick": 20, "thorough": 150}, "driver_saves": 6, "interrupt_points": 100}
 
 NAME = "/ckpt/checkpoint.json"
 
@@ -66,6 +66,10 @@ def cases(tier, seed):
     for p in pos:
         for start in ("clean", "between-renames"):
             out.append({"engine": "sigkill", "pos": list(p), "start": start})
+    # death through an exception at every operation (the interpreter unwinds: files are closed, finally clauses run)
+    for start in ("clean", "between-renames"):
+        for bufsize in (1, 64):
+            out.append({"engine": "interrupt", "start": start, "bufsize": bufsize, "npar": 2})
     for alg in ("mcmc", "optimizer", "optimizer-lbfgs"):  # the two code paths of Optimizer: _run (first-order) and _run_closure (LBFGS)
         out.append({"engine": "driver", "algorithm": alg, "bufsize": 64})
     return out
@@ -105,6 +109,20 @@ def write_once(files, bufsize, crash_at, version, npar):
         except fsshim.Crash:
             died = True
     return vfs.files, vfs.ops, died
+
+
+def write_interrupted(files, bufsize, interrupt_at, version, npar):
+    """one checkpoint write that dies through an exception raised at operation `interrupt_at` -> (files after, raised?)"""
+    from torchtree.core.parameter_utils import save_parameters
+
+    vfs = fsshim.VFS(files, bufsize, interrupt_at=interrupt_at)
+    raised = False
+    with fsshim.installed(vfs):
+        try:
+            save_parameters(NAME, params(version, npar))
+        except fsshim.Interrupt:
+            raised = True
+    return vfs.files, raised
 
 
 def classify(files, versions, npar):
@@ -157,6 +175,29 @@ def run_case(case):
     V = []
     C = {"crash_points": 0, "directory_states_checked": 0, "depth2_states": 0, "deep_paths": 0, "real_kills": 0, "driver_saves": 0, "shim_operations_intercepted": 0}
     seen = set()
+    if eng == "interrupt":
+        npar, bs = case["npar"], case["bufsize"]
+        good = json.dumps(encoded(1, npar), indent=2).encode()
+        v2 = json.dumps(encoded(2, npar), indent=2).encode()
+        before = {NAME: good} if case["start"] == "clean" else {NAME + ".old": good, NAME + ".new": v2}
+        present = {1} if case["start"] == "clean" else {1, 2}
+        probe = fsshim.VFS(dict(before), bs)
+        from torchtree.core.parameter_utils import save_parameters
+
+        with fsshim.installed(probe):
+            save_parameters(NAME, params(3, npar))
+        total = len(probe.ops)
+        for k in range(total):
+            files, raised = write_interrupted(dict(before), bs, k, 3, npar)
+            if not raised:
+                continue
+            C["crash_points"] += 1
+            C["interrupt_points"] = C.get("interrupt_points", 0) + 1
+            st = judge(V, C, seen, before, files, present | {3}, npar, 1, "exception at operation %d/%d of a write (start %s)" % (k, total, case["start"]))
+            # the next write after the interrupted one completes and leaves a good directory
+            files2, _, died = write_once(dict(files), bs, None, 4, npar)
+            judge(V, C, seen, files, files2, complete_versions(files, npar, 4) | {4}, npar, 2, "complete write after an exception at operation %d/%d" % (k, total))
+        return {"violations": V, "counters": C, "fingerprint": None, "fingerprints": ["|".join(map(str, x)) for x in sorted(seen, key=str)], "sample": None}
     if eng == "shim":
         bs, npar = case["bufsize"], case["npar"]
         from torchtree.core.parameter_encoder import ParameterEncoder
